@@ -77,6 +77,7 @@ func judge(r *run, res *simrt.Result) {
 	r.checkReceiver(m)
 	r.checkSessions(m)
 	r.checkConnect(m)
+	r.checkKeepAlive(m)
 	r.relabel()
 }
 
@@ -92,13 +93,20 @@ func (r *run) relabel() {
 		from, to = []string{"C01"}, "C07"
 	case "session":
 		from, to = []string{"C01"}, "C10"
+	case "keepalive":
+		from, to = []string{"C05", "C09"}, "C19"
 	case "connect":
-		from, to = []string{"C01", "C08", "C10"}, "C11"
+		from, to = []string{"C01", "C08", "C09", "C10"}, "C11"
 	}
 	if to == "" {
 		return
 	}
 	tag := ""
+	if r.sc.Profile == "connect" && r.malformedAccepted {
+		// the session, subscriptions and publishes of a connection that was
+		// accepted on a malformed CONNECT are not in the model
+		tag = "/malformed-connect-accepted"
+	}
 	if r.sc.Profile == "session" && r.m != nil && len(r.m.racedIDs()) > 0 {
 		// some identifier reconnected while its old connection was still being
 		// torn down: session state may be shared or deleted late (known defect)
@@ -349,6 +357,9 @@ func (r *run) checkRouting(m *Model) {
 			continue // retained deliveries: C08
 		}
 		r.cur = d.C
+		if !d.Intact && len(byKey[d.Key]) > 0 {
+			d.Intact = true // byte-identical to a raw payload somebody published
+		}
 		if !d.Intact {
 			r.viol("C01", "payload-intact", "C01/corrupt-delivery", "%s received a PUBLISH on %q whose payload (%d bytes) is not byte-identical to any published message (claims source %d seq %d)", subscriberName(d.C, d.CB), d.Topic, len(d.Payload), d.Src, d.Seq)
 			continue
@@ -367,8 +378,13 @@ func (r *run) checkRouting(m *Model) {
 			if d.Src >= srcWill && d.Src < srcInproc {
 				cause := "?"
 				for _, c := range m.H.Conns {
-					if c.Idx == d.Seq {
-						cause = m.EndCause(c)
+					if len(c.Up) > 0 && c.Up[0].P.Type == refmqtt.CONNECT && c.Up[0].P.WillFlag {
+						if ws, wq, ok := identify(c.Up[0].P.WillMessage); ok && ws == d.Src && wq == d.Seq {
+							cause = m.EndCause(c)
+							if !accepted(c) {
+								cause = "never-accepted"
+							}
+						}
 					}
 				}
 				r.viol("C09", "will-only-on-abnormal-end", "C09/will-published-unexpectedly/"+cause, "%s received the will of connection %d (topic %q) although that connection ended by %s (or its will was replaced by a later CONNECT)", subscriberName(d.C, d.CB), d.Seq, d.Topic, cause)
@@ -929,7 +945,7 @@ func (r *run) checkRetained(m *Model) {
 						continue
 					}
 				}
-				if !d.Intact || src == nil {
+				if src == nil {
 					r.viol("C08", "retained-payload", "C08/wrong-retained-payload"+tag, "%s subscribed %q and received a retained message for %q (%d bytes, key %s, intact=%v) that is not a value the topic could hold at that time; possible values: %s, none possible: %v", sr.who, sr.filters, t, len(d.Payload), d.Key, d.Intact, pubKeys(vals), nonePossible)
 					continue
 				}
@@ -1266,10 +1282,15 @@ func (r *run) checkConnect(m *Model) {
 			class = "malformed-connect"
 		}
 		if !wellFormed {
+			if d := connectDefect(c.FirstBytes); d != "not-connect" {
+				class = "malformed-connect/" + d
+			}
 			// any other first packet or a malformed CONNECT: must be closed,
 			// must not be accepted, must not get anything but an optional CONNACK
 			if ack != nil && ack.Code == 0 {
 				r.viol("C11", "first-packet", "C11/accepted/"+class, "connection %d sent %s as its first packet and was accepted with CONNACK code 0", c.Idx, describeFirst(c))
+				r.malformedAccepted = true
+				continue // what follows on this connection is a consequence
 			}
 			if nonAck > 0 {
 				r.viol("C11", "no-effect-before-connect", "C11/packets-sent-to-unaccepted/"+class, "connection %d was never accepted but the broker sent it %d packet(s) besides CONNACK, e.g. %s", c.Idx, nonAck, c.Down[len(c.Down)-1].P)
@@ -1325,4 +1346,126 @@ func describeFirst(c *Conn) string {
 		return "bytes that are no MQTT packet (" + errClass(c.UpErr) + ")"
 	}
 	return fmt.Sprintf("an incomplete packet (%d bytes)", c.upS.Pending())
+}
+
+// connectDefect names the first way in which raw (the first bytes of a
+// connection, starting with a CONNECT fixed header) is not a well-formed
+// CONNECT packet.
+func connectDefect(raw []byte) string {
+	if len(raw) < 2 || raw[0]>>4 != refmqtt.CONNECT {
+		return "not-connect"
+	}
+	if raw[0]&15 != 0 {
+		return "header-flags"
+	}
+	remlen, hl, err := refmqtt.HeaderLen(raw)
+	if err != nil {
+		return "remaining-length"
+	}
+	if hl == 0 || len(raw) < hl+remlen {
+		return "incomplete"
+	}
+	b := raw[hl : hl+remlen]
+	i := 0
+	field := func(name string) (string, bool) {
+		if len(b)-i < 2 {
+			return "missing-" + name, false
+		}
+		n := int(b[i])<<8 | int(b[i+1])
+		if len(b)-i-2 < n {
+			return "truncated-" + name, false
+		}
+		i += 2 + n
+		return "", true
+	}
+	if d, ok := field("protocol-name"); !ok {
+		return d
+	}
+	if len(b)-i < 4 {
+		return "truncated-variable-header"
+	}
+	cf := b[i+1]
+	i += 4
+	switch {
+	case cf&1 != 0:
+		return "reserved-flag"
+	case cf&4 == 0 && cf&0x38 != 0:
+		return "will-flags-without-will"
+	case cf>>3&3 == 3:
+		return "will-qos-3"
+	case cf&0x40 != 0 && cf&0x80 == 0:
+		return "password-without-user-name"
+	}
+	if d, ok := field("client-identifier"); !ok {
+		return d
+	}
+	if cf&4 != 0 {
+		if d, ok := field("will-topic"); !ok {
+			return d
+		}
+		if d, ok := field("will-message"); !ok {
+			return d
+		}
+	}
+	if cf&0x80 != 0 {
+		if d, ok := field("user-name"); !ok {
+			return d
+		}
+	}
+	if cf&0x40 != 0 {
+		if d, ok := field("password"); !ok {
+			return d
+		}
+	}
+	if i != len(b) {
+		return "trailing-bytes"
+	}
+	return "other"
+}
+
+// ---------------------------------------------------------------- C19 keep-alive
+
+// checkKeepAlive: a client that negotiated K seconds and is silent for well
+// over 1.5 x K must be dropped: by 2K + 1 s of silence the broker has closed
+// the connection.  (That it is not dropped while active is the
+// innocent-connection oracle; that the drop publishes the will is the will
+// oracle; that PINGREQ is answered is the response oracle.)
+func (r *run) checkKeepAlive(m *Model) {
+	h := m.H
+	for _, c := range h.Conns {
+		if !accepted(c) || len(c.UpVT) == 0 {
+			continue
+		}
+		k := int64(c.Up[0].P.KeepAlive)
+		if k == 0 {
+			continue
+		}
+		limit := (2*k + 1) * 1e9
+		// when did the connection end, and who ended it
+		end := int64(-1)
+		if c.ClientEnded {
+			end = c.EndVT
+		}
+		if c.Dead && (end < 0 || c.DeadVT < end) {
+			end = c.DeadVT
+		}
+		if h.ServerCloseCall > 0 && c.nc.Closed() && end < 0 {
+			continue
+		}
+		times := append([]int64{}, c.UpVT...)
+		for i, t := range times {
+			next := end
+			if i+1 < len(times) {
+				next = times[i+1]
+			}
+			if next < 0 {
+				next = int64(r.s.Now())
+			}
+			if next-t > limit {
+				// silent for more than 2K+1 s and the connection was still there
+				r.viol("C19", "silent-client-dropped", "C19/not-dropped", "connection %d (keep-alive %d s) sent nothing from %.3fs to %.3fs (%.1f s of silence) and the broker had not closed it by then", c.Idx, k, float64(t)/1e9, float64(next)/1e9, float64(next-t)/1e9)
+				break
+			}
+		}
+	}
 }
